@@ -73,7 +73,7 @@ def gen_case(rng, groups_subset=None, force_enabled=None):
     for g, ms in groups:
         for i, m in enumerate(ms or []):
             if rng.random() < 0.15:
-                toggles.append([g, i, m["name"], not m["enabled"], rng.choice(["attr", "override"])])
+                toggles.append([g, i, m["name"], not m["enabled"], rng.choice(["attr", "override", "override-text"])])
     case["toggles"] = toggles
     # the same model NAME in two different groups (legal): keys must address the model of THEIR group
     populated2 = [(g, ms) for g, ms in groups if ms]
@@ -205,6 +205,8 @@ def run_impl(case):
         for g, i, name, new, route in case.get("toggles", []):
             if route == "attr":
                 getattr(pipe, g).models[i].enabled = new
+            elif route == "override-text":  # what `pyxel run --override key=False` hands over: the TEXT of the value
+                overrides[f"pipeline.{g}.{name}.enabled"] = "True" if new else "False"
             else:
                 overrides[f"pipeline.{g}.{name}.enabled"] = new
         okw = {"override_dct": overrides} if overrides else {}
